@@ -53,7 +53,42 @@ def expected_traceback(res, path="/v/main.lay"):
     return out
 
 
+# A shape outside the generator: the error is raised by the catch clause itself (it names something that is not a class)
+# after a first error unwound to it from a deeper call. Which calls are "active" then is the catching frame and its
+# callers; the frames the first error left behind are not.
+SCENARIOS = {
+    "bad-catch-clause-after-deeper-raise": (
+        "let Fake = 'not a class';\nfn thrower() {\n  raise Error('first');\n}\nfn mid() {\n  try {\n    thrower();\n  } catch e: Fake {\n"
+        "    print('unreachable');\n  }\n}\ntry {\n  mid();\n} catch e: TypeError {\n  print(e.message);\n  for line in e.backTrace {\n"
+        "    print(line);\n  }\n}\n",
+        "Catch block must be blank or a subclass of Error.\n/v/main.lay:8 in mid()\n/v/main.lay:13 in script\n"),
+}
+
+
+def run_scenario(name, ctx):
+    from ..runner import enc
+    src, want = SCENARIOS[name]
+    fail = None
+    runs = 0
+    for variant in ("dbg", "rel"):
+        r = ctx.worker(variant).run(src)
+        runs += 1
+        if r.get("outcome") != "ok" or r.get("stdout") != want:
+            fail = Failure("%s/scenario/%s" % (PROPERTY, name),
+                           "%s on %s: expected stdout %r, got %s with stdout %r\n%s\n--- source\n%s" %
+                           (name, variant, want, r.get("outcome"), r.get("stdout"), (r.get("stderr") or "")[-300:], src),
+                           {"source": src, "case": enc(("scenario", name))})
+            break
+    return Outcome(key="scenario:" + name, nontrivial=True, labels=["scenario"], failure=fail, runs=runs)
+
+
+def extra(tier, ctx):
+    return [run_scenario(n, ctx) for n in sorted(SCENARIOS)]
+
+
 def run_case(case, ctx):
+    if isinstance(case, tuple) and len(case) == 2 and case[0] == "scenario":
+        return run_scenario(case[1], ctx)
     prog = case
     src, lines = printer.to_source(prog)
     res, why = run_model(prog, lines)
